@@ -73,3 +73,4 @@ revert b8305ae C02
 revert 8c12c05 C04
 revert 536f122 C13
 revert 9bea1b7 C04
+revert 25cefdc C17 C13
